@@ -254,7 +254,7 @@ PASSIVE_PROPS = {"C03", "C04", "C05", "C06", "C07"}
 # properties whose checks also replay the behaviours of the composite specification spec/FsSystem.tla (two sessions in which
 # context, DML, failures, transactions, variables, scripts and no-op'd statements meet) and report the rejections that
 # belong to them (props/sysmodel.py: attribute)
-SYSTEM_PROPS = {"C03", "C04", "C06", "C07", "C13", "C15", "C16"}
+SYSTEM_PROPS = {"C03", "C04", "C05", "C06", "C07", "C09", "C13", "C15", "C16"}
 
 
 class Prop:
